@@ -81,18 +81,25 @@ cannot be mixed in the same constant"; the `x`/`b` must be lower case. -/
 def IsRadixBody (dig : Char → Bool) (body : List Char) : Prop :=
   isPlain dig body = true ∨ Grouped dig 4 4 body ∨ Grouped dig 8 8 body
 
-/-- Numeric constants exactly as doc/language-reference.md describes them. -/
-def IsNumberDoc (w : List Char) : Prop :=
+/-- The forms without a `_` after the prefix: decimal, `0x…`, `0b…`, each without separators or
+with the separators described above. -/
+def IsNumberNoPrefixUnderscore (w : List Char) : Prop :=
   IsDecimal w ∨ (∃ body, w = '0' :: 'x' :: body ∧ IsRadixBody isHexDigit body) ∨
     (∃ body, w = '0' :: 'b' :: body ∧ IsRadixBody isBinDigit body)
 
-/-- What the tokenizer (and the table in doc/grammar.md) accepts in addition: one `_`
-directly after the `0x` / `0b` prefix of a constant whose digits are grouped by 4 or by 8
-(the first group may be shorter).  Not described by the language reference
-(known finding `number-with-underscore-directly-after-radix-prefix`). -/
+/-- "A single `_` may also be placed directly after the `0x` or `0b` prefix, before the first
+group of digits" (documented since /repo commit 1c861f8; examples `0x_1234_5678`, `0x_ff`,
+`0b_1010_0101`): after `0x_` / `0b_` come *groups* of digits in the sense of the 4- or 8-digit
+rule — a first group of 1…4 digits followed by `_`-separated groups of exactly 4, or a first
+group of 1…8 digits followed by groups of exactly 8.  (A run of more than 8 digits is not a
+group under either rule, so `0x_123456789` is not of this form.) -/
 def IsNumberRadixUnderscore (w : List Char) : Prop :=
   (∃ body, w = '0' :: 'x' :: '_' :: body ∧ (Grouped isHexDigit 4 4 body ∨ Grouped isHexDigit 8 8 body)) ∨
     (∃ body, w = '0' :: 'b' :: '_' :: body ∧ (Grouped isBinDigit 4 4 body ∨ Grouped isBinDigit 8 8 body))
+
+/-- Numeric constants exactly as doc/language-reference.md ("Numeric Constant Formats")
+describes them. -/
+def IsNumberDoc (w : List Char) : Prop := IsNumberNoPrefixUnderscore w ∨ IsNumberRadixUnderscore w
 
 /-- The catch-all number shape of doc/grammar.md (`BadNumber`): a digit, optionally one
 of `b x B X`, then hex digits and underscores. -/
